@@ -21,6 +21,9 @@ def _configs(tier):
                         continue
                     out.append((f"{'/'.join(layers)}|{','.join(map(str, dzs))}|bunds={int(bunds)}|gs={int(gs)}",
                                 {"layers": layers, "dzs": dzs, "bunds": bunds, "gs": gs}))
+        if n == 2:
+            # bunds switched on with the default height 0 (FieldMngt(bunds=True)): must behave like a field without bunds
+            out.append((f"{'/'.join(cat[0][0])}|zero-height-bunds", {"layers": cat[0][0], "dzs": cat[0][1], "bunds": True, "gs": True, "lowbund": True}))
     return out
 
 
@@ -37,16 +40,21 @@ def h_infiltration(ctx, cfg):
     infl0 = ctx.real("Infl_in", 0, 300)
     irr = ctx.real("Irr", 0, 500)
     eff = ctx.real("AppEff", 0, 100)
-    zb = ctx.real("z_bund", 0.0011, 500) if bunds else ctx.real("z_bund", 0, 500)
-    if bunds:
+    low = cfg.get("lowbund", False)
+    zb = (ctx.real("z_bund", 0, 0.001) if low else ctx.real("z_bund", 0.0011, 500)) if bunds else ctx.real("z_bund", 0, 500)
+    if bunds and not low:
         ctx.assume(ss <= zb)    # INV: ponding never exceeds the bund height
+    if low:
+        bunds_eff = False
+    else:
+        bunds_eff = bunds
     flux = ctx.arr("FluxOut", n, lo=0, hi=base.Ksat)
     dp0 = ctx.real("DeepPerc0", 0, 1e4)
     ro0 = ctx.real("Runoff0", 0, 300)
     snap = prof_snapshot(prof)
     th0 = list(th)
     before = storage(base, th) + ss
-    thn, ssn, dp, ro, infl, fl = M.infiltration(prof, ss, fca, th, infl0, irr, eff, bunds, zb, flux, dp0, ro0, gs)
+    thn, ssn, dp, ro, infl, fl = M.infiltration(prof, ss, fca, th, infl0, irr, eff, cfg["bunds"], zb, flux, dp0, ro0, gs)
     after = storage(base, thn) + ssn
     d_ro = ro - ro0
     d_dp = dp - dp0
@@ -58,6 +66,8 @@ def h_infiltration(ctx, cfg):
     ctx.prove("C02:runoff <= applied water + ponding", d_ro <= applied + ss + 1e-9)
     ctx.prove("C04:deep percolation added by infiltration >= 0", d_dp >= -1e-12)
     ctx.prove("C02:Infl >= -ponded", infl >= -ss - 1e-9)
+    real_bunds = bunds
+    bunds = bunds_eff
     if bunds:
         ctx.prove("C02:Infl >= 0 with bunds", infl >= -1e-12)
     else:
